@@ -1618,11 +1618,13 @@ class ConfigInformation:
                         completed_pretasks.add(pre_task_id)
                         pre_tasks.append(objects[pre_task_id])
 
-            # Collect init tasks
+            # Collect init tasks (just once too: an init task listed twice, or
+            # already collected as a pre-task, is not executed again)
             init_tasks = []
             for init_task_id in definitions[-1].get("init-tasks", []):
-                init_task = objects[init_task_id]
-                init_tasks.append(init_task)
+                if init_task_id not in completed_pretasks:
+                    completed_pretasks.add(init_task_id)
+                    init_tasks.append(objects[init_task_id])
 
             if as_instance:
                 for pre_task in pre_tasks:
